@@ -250,7 +250,11 @@ impl Parser {
                     let mut ident = property.to_owned();
 
                     match ident.ty().unwrap().as_ref() {
-                        TypeLayout::Class(class_type) => {
+                        // an exported class is listed under its own name; an exported variable
+                        // whose type is a class holds an instance and keeps that type
+                        TypeLayout::Class(class_type)
+                            if class_type.name() == ident.name() =>
+                        {
                             input
                                 .user_data()
                                 .add_type(ident.boxed_name(), ident.ty().cloned().unwrap());
